@@ -244,7 +244,7 @@ def run_case(inp):
             com = (idx * tomo.reshape(1, -1)).sum(axis=1) / tomo.sum()
             tc = (np.indices(shape).reshape(3, -1) * tmpl.reshape(1, -1)).sum(axis=1) / tmpl.sum() - (np.array(shape) - 1) / 2
             want = pos_px[0] + rot.apply(tc)[0]
-            if np.abs(com - want).max() > 0.08:
+            if not (np.abs(com - want).max() <= 0.08):
                 V("pose", f"pasted density is displaced by {np.abs(com - want).max():.3f} px from the requested pose "
                           f"({'even' if any(s % 2 == 0 for s in shape) else 'odd'} template {shape})")
             if cc < 0.97:
